@@ -1,28 +1,36 @@
 PROPERTY = dict(
-    level='other',
-    level_text='Reduced scope: only the version gate and the lock gate are decided; the write/read round trip of results - the core of the property - is NOT (the queries exist but do not reach a verdict, see DISABLED in obligations/C03.py).  What is decided: bounded model checking of the real SQLiteBuildDB::open / getCurrentEpoch / buildStarted over a ROW MODEL of SQLite (three small tables; sqlite3_* entry points defined in harness/C03/sqlite_model.h): every field of a stored result (value bytes, signature, both epochs, both timestamps bit for bit, dependency list in order with both flags, for arbitrary key/value bytes incl. NUL) is read back identically by a fresh database object over the same tables, through both the join path and the cached-id fast path; the version gate either uses, rejects, or recreates (unlink + schema inside one exclusive transaction); a build takes the exclusive lock and fails when it cannot; a malformed dependency blob is an error.  SQLite itself is NOT verified: locking, busy time-outs and column type affinity (the key column is declared STRING, which SQLite gives NUMERIC affinity: numeric-looking keys such as "1" and "1.0" may be conflated - observed by reading, outside what this technique can encode).',
-    level_note='Trusted: clang-14 -O1 IR of SQLiteBuildDB.cpp, ir2c (validated each run), CBMC+SAT, the row model (which bind/column index means which table column is tied to the exact SQL text: a changed statement makes the check inconclusive, not green), LLVM DenseMap header code as compiled. "Same executions split across processes" follows from this round trip plus C01-O9 (addRule takes the looked-up result as is), not from running builds.',
-    bounds='keys 0..2 bytes, values 0..2 bytes, 0..2 dependencies, all contents and all 64-bit fields symbolic (epochs < 2^63: SQLite integers are signed)',
+    level='model_checking',
+    level_text='Bounded model checking of the real SQLiteBuildDB (lib/Core/SQLiteBuildDB.cpp) over a row model of SQLite. (R1) round trip: a result written by setRuleResult in one database object and read by lookupRuleResult in a FRESH object over the same tables '
+               '(a later process) comes back identical - value bytes, signature, both epochs, both timestamps bit for bit, and the dependency list in order with each order-only and single-use flag - for keys with NUL bytes, the empty key, prefixes of one another and high bytes; '
+               'the cached fast path of a second lookup agrees; every write lies inside the build transaction; key rows exist before the result row that refers to them. '
+               '(R5) a stored dependency blob that is not a whole number of 8-byte entries is an error, never a guess. (R3) version gate: a database of another schema or client version is rejected or recreated empty, never interpreted. (R4) lock gate: a build takes the exclusive lock and cannot start while it is held.',
+    level_note='Trusted: clang-14 -O1 IR of SQLiteBuildDB.cpp, ir2c (validated each run), CBMC 6.11 + MiniSat/CaDiCaL, the row model (which bind/column index means which table column is tied to the exact SQL text: a changed statement makes the check inconclusive, not green), '
+               'the array-backed contract model of llvm::DenseMap. NOT decided: "same executions split across processes" as a whole (that is C01 composed with this round trip), SQLite itself (type affinity of the key column, locking, journal).',
+    bounds='keys 0..3 bytes (four concrete triples of pairwise distinct lengths), values 0..2 bytes, 0..2 dependencies with a concrete flag pattern per query (all 4^n thorough), all value bytes and all 64-bit fields symbolic (epochs < 2^63: SQLite integers are signed)',
     outside='longer keys/values/lists; database ids >= 2^62 (flag packing shifts them out); SQLite semantics (locking, affinity, journal); getKeysWithResult / dump',
-    stubs='sqlite3_* = row model; unlink = model; SQLiteBuildDB::getCurrentErrorMessage = fixed string',
-    explanation='Solver verdicts for the version gate (all stored schema/client versions, recreate on and off) and the lock gate; the round trip is not decided, so database transparency as a whole is not established by this check.',
-    assumptions=['distinct engine keys have distinct byte strings and distinct non-zero engine ids'],
+    stubs='sqlite3_* = row model; unlink = model; SQLiteBuildDB::getCurrentErrorMessage = fixed string; llvm::DenseMap = array-backed contract model',
+    explanation='Solver verdicts for the write/read round trip, the malformed-blob case, the version gate and the lock gate of the real database class, with every stored payload symbolic.',
+    assumptions=['distinct engine keys have distinct byte strings and distinct non-zero engine ids', 'the keys of one query have pairwise distinct lengths (row selection by length; byte equality is asserted, not assumed)'],
 )
-COMMON = dict(opt_flags=['-disable-loop-idiom-all'], harness='C03/h_db.cpp', entry='harness_db', shim_includes=['C03/shim'], cxxflags=['-I/repo/lib/Core'],   # shim: contract model of llvm::DenseMap (see the header)
+COMMON = dict(opt_flags=['-disable-loop-idiom-all'], byte_copy='loop', copy_unwind=120, harness='C03/h_db.cpp', entry='harness_db', shim_includes=['C03/shim'], cxxflags=['-I/repo/lib/Core'],   # shim: contract model of llvm::DenseMap (see the header)
               tus=['lib/llvm/Support/StringRef.cpp'],
               models=['engine'], stub_virtual=['SQLiteBuildDB4dump', '^_ZN7llbuild4core4Rule', 'SQLiteBuildDB(7getKeys|17getKeysWithResult)'], allow_external=['^_ZTVN7llbuild4core4RuleE$', '^_ZTVN7llbuild4core7BuildDBE$', '^_ZTVN7llbuild4core15BuildDBDelegateE$'],
               stubs=['SQLiteBuildDB22getCurrentErrorMessageB5cxx11Ev$=stub_errmsg', '_ZNK4llvm5Twine3strB5cxx11Ev$=stub_twine_str', '^_ZNSt7__cxx119to_stringEi$=stub_to_string_i', '^_ZNSt7__cxx119to_stringEj$=stub_to_string_u', '^_ZN7llbuild5basic3sys6unlinkEPKc$=vf_unlink'],
               expect_functions=['SQLiteBuildDB'], noinline=['SQLiteBuildDB(13setRuleResult|16lookupRuleResult|4open|12buildStarted)'],
               unwindset='strcmp.0:300,memcmp.0:20', unwind=10, unwind_loops=[('SQLiteBuildDB|sqlite3|bindBytes|harness_db', 18)], timeout=900, cbmc_flags=['--object-bits', '10'])
+def rt(tier):
+    # write/read round trip: one query per (key triple, value length, number of dependencies, flag pattern)
+    if tier == 'quick':
+        combos = [(0, 1, 1, 1), (0, 2, 2, 14), (1, 0, 0, 0), (1, 1, 2, 7), (2, 2, 2, 6), (2, 0, 1, 2), (3, 1, 2, 9), (3, 2, 1, 3)]
+    else:
+        combos = [(ks, nv, nd, fl) for ks in range(4) for nv in (0, 1, 2) for nd in (0, 1, 2) for fl in range(4 ** nd)]
+    return [{'VF_CASE': 0, 'VF_KS': ks, 'VF_NV': nv, 'VF_ND': nd, 'VF_FL': fl} for (ks, nv, nd, fl) in combos]
 OBLIGATIONS = [
+    dict(COMMON, name='R1.roundtrip', params_quick=rt('quick'), params_thorough=rt('thorough')),
+    dict(COMMON, name='R5.blob-width', params_quick=[{'VF_CASE': 3, 'VF_NV': n} for n in (0, 3, 8, 9)], params_thorough=[{'VF_CASE': 3, 'VF_NV': n} for n in range(0, 17)]),
     dict(COMMON, name='R3.version-gate', params_quick=[{'VF_CASE': 1, 'VF_RECREATE': 0}, {'VF_CASE': 1, 'VF_RECREATE': 1}]),
     dict(COMMON, name='R4.lock-gate', params_quick=[{'VF_CASE': 2}]),
 ]
-# Built but NOT part of the check: the write/read round trip (R1) and the malformed-blob case (R5) do not reach a
-# verdict within 10 minutes per query (symbolic execution of setRuleResult / lookupRuleResult over the row model,
-# with the key bytes concrete and everything else symbolic, stays in symex; one 50-minute run is recorded in DESIGN.md).
 DISABLED = [
     dict(COMMON, name='P1.probe', params_quick=[{'VF_CASE': 0, 'VF_KS': 1, 'VF_NV': 0, 'VF_ND': 0, 'VF_PROBE': p} for p in (2, 3)]),
-    dict(COMMON, name='R1.roundtrip', params_quick=[{'VF_CASE': 0, 'VF_KS': ks, 'VF_NV': nv, 'VF_ND': nd} for (ks, nv, nd) in ((0, 1, 1), (1, 0, 0), (2, 2, 2), (3, 1, 2))]),
-    dict(COMMON, name='R5.blob-width', params_quick=[{'VF_CASE': 3, 'VF_NV': n} for n in (0, 3, 8, 9)]),
 ]
